@@ -745,6 +745,11 @@ func (w *Walker) Run(fn *ssa.Function, start *ssa.BasicBlock, stops map[*ssa.Bas
 	w.Start = start
 	w.Stops = stops
 	w.Paths = nil
+	if w.Inline == nil {
+		// default: same-package helpers without loops, goroutines, defers or closures are
+		// looked through, so that "extract a helper" refactorings leave the paths unchanged
+		w.Inline = autoInline(w.P, fn, 60)
+	}
 	fr := &frame{fn: fn}
 	s := newState()
 	w.walkFrom(s, fr, start, 0, nil, true)
@@ -774,7 +779,7 @@ func (w *Walker) walkFrom(s *State, fr *frame, b *ssa.BasicBlock, idx int, pred 
 		return
 	}
 	if idx == 0 {
-		if fr.depth == 0 && !first && w.Stops[b] {
+		if !first && w.Stops[b] {
 			next := map[string]*Term{}
 			if pi := predIndex(b, pred); pi >= 0 {
 				for _, in := range b.Instrs {
@@ -1113,7 +1118,15 @@ func (w *Walker) selectInstr(s *State, fr *frame, b *ssa.BasicBlock, i int, in *
 type Loop struct {
 	Header *ssa.BasicBlock
 	Body   map[*ssa.BasicBlock]bool
+	// Via is set when the loop lives in a private helper of the function the
+	// rule is about ("run() { prelude; x.serve(args); tail }"): the one call
+	// through which it is reached.  Regions are then walked across the two
+	// frames, so where the loop's text lives does not change the paths.
+	Via *ssa.Call
 }
+
+// fn returns the function that contains the loop.
+func (l *Loop) fn() *ssa.Function { return l.Header.Parent() }
 
 func findLoops(fn *ssa.Function) []*Loop {
 	byHeader := map[*ssa.BasicBlock]*Loop{}
@@ -1164,12 +1177,63 @@ func loopContaining(loops []*Loop, b *ssa.BasicBlock) *Loop {
 // (back-edge) or out of the loop.
 func (w *Walker) LoopRegion(fn *ssa.Function, l *Loop) []*Path {
 	stops := map[*ssa.BasicBlock]bool{l.Header: true}
-	for _, b := range fn.Blocks {
+	for _, b := range l.fn().Blocks {
 		if !l.Body[b] {
 			stops[b] = true
 		}
 	}
+	if l.Via != nil {
+		return w.runVia(fn, l, stops)
+	}
 	return w.Run(fn, l.Header, stops)
+}
+
+// runVia starts at the header of a loop that lives in a helper called from
+// outer (l.Via): the helper's parameters are bound to the call's arguments
+// and its return continues in outer after the call.
+func (w *Walker) runVia(outer *ssa.Function, l *Loop, stops map[*ssa.BasicBlock]bool) []*Path {
+	if w.Limit == 0 {
+		w.Limit = 4000
+	}
+	inner := l.fn()
+	w.Start = l.Header
+	w.Stops = stops
+	w.Paths = nil
+	if w.Inline == nil {
+		w.Inline = autoInline(w.P, outer, 60)
+	}
+	for g := range autoInline(w.P, inner, 60) {
+		w.Inline[g] = true
+	}
+	ofr := &frame{fn: outer}
+	s := newState()
+	ifr := &frame{fn: inner, params: map[*ssa.Parameter]*Term{}}
+	for k, p := range inner.Params {
+		if k < len(l.Via.Call.Args) {
+			ifr.params[p] = w.eval(s, ofr, l.Via.Call.Args[k])
+		}
+	}
+	b := l.Via.Block()
+	idx := 0
+	for i, in := range b.Instrs {
+		if in == ssa.Instruction(l.Via) {
+			idx = i
+		}
+	}
+	via := l.Via
+	ifr.ret = func(s2 *State, results []*Term) {
+		switch len(results) {
+		case 0:
+			s2.val[via] = &Term{K: "void"}
+		case 1:
+			s2.val[via] = results[0]
+		default:
+			s2.val[via] = &Term{K: "tuple", A: results}
+		}
+		w.walkFrom(s2, ofr, b, idx+1, nil, false)
+	}
+	w.walkFrom(s, ifr, l.Header, 0, nil, true)
+	return w.Paths
 }
 
 // FuncRegion walks the whole function from entry; loops end paths as "cycle".
@@ -1230,10 +1294,19 @@ func dumpPath(p *Prog, i int, pa *Path) string {
 // the function's return (so the exit handlers and the post-loop tail are part
 // of the path).  Other loops met on the way end the path as "cycle".
 func (w *Walker) IterRegion(fn *ssa.Function, l *Loop) []*Path {
+	if l.Via != nil {
+		return w.runVia(fn, l, map[*ssa.BasicBlock]bool{l.Header: true})
+	}
 	return w.Run(fn, l.Header, map[*ssa.BasicBlock]bool{l.Header: true})
 }
 
 // PreludeRegion walks from the function entry to the header of loop l.
 func (w *Walker) PreludeRegion(fn *ssa.Function, l *Loop) []*Path {
+	if l.Via != nil {
+		if w.Inline == nil {
+			w.Inline = autoInline(w.P, fn, 60)
+		}
+		w.Inline[l.fn()] = true
+	}
 	return w.Run(fn, fn.Blocks[0], map[*ssa.BasicBlock]bool{l.Header: true})
 }
